@@ -73,7 +73,7 @@ CLAIMS = {
          'Deductive (pyvc+z3) for modularity_finetune_und and modularity_finetune_dir, whole function bodies, all networks with positive total weight (symmetric for _und), all gamma, all start '
          'partitions with arbitrary labels, all visiting orders: the returned labels are exactly 1..k (np.unique rank contract) and the returned q equals the modularity Q(W, ci, gamma) of the '
          'returned labels: the aggregation loops are proved to build the module-by-module aggregate, and the code-independent identity q_from_aggregate (trace(w)/s - gamma sum(w/s . w/s) = Q; '
-         'proved in Lean, DESIGN Appendix A.2) closes the gap. modularity_louvain_und (hierarchy=False) is proved END TO END as well: the node-moving sweeps of a level are used modularly through the proved fragment contract modularity_louvain_und#level, and the outer loop over hierarchy levels (lists ci/q of symbolic length, np.unique relabelling, composition of label vectors, aggregation of the working matrix, formula of q, stopping test, returned pair) is proved with the invariant `working matrix = aggregate of the ARGUMENT under the current labels of the original nodes`, using the Lean-proved identity that aggregation composes (agg_compose); result: labels exactly 1..k, q = Q(argument, returned labels) unless no level was accepted (then q = -1 with singleton labels, which needs Q(singletons) <= -1 + 1e-10: impossible for gamma < 2, covered by the bounded tier). The signed routines modularity_finetune_und_sign and modularity_louvain_und_sign (whole functions, all five qtypes at once) are proved the same way for the signed quality d0 Q+ - d1 Q-: labels 1..k, returned q = signed quality of the returned labels (finetune: the definition of the quality unfolded as a double sum; Louvain: from the aggregated positive/negative matrices), and d0, d1, s0, s1 are the factors of the requested type incl. the adjustment for an absent sign. community_louvain (default objective B=\'modularity\', default start or ANY given start partition, non-negative weights, directed or undirected) is proved end to end as well: construction and symmetrisation of the kernel, initial bookkeeping, first-iteration branch, composition of labels, aggregation, q = trace: the returned q is QrawB(kernel, labels)/s, which is the modularity of the returned labels (Lean: Q_from_symmetrised_kernel). All other detectors (modularity_louvain_dir = known finding, a user-supplied objective matrix for community_louvain (its other built-in objectives potts / negative_sym / negative_asym are proved like modularity: q = objective of the returned labels for the documented kernel, pinned cell by cell), hierarchy=True output, probtune, community_louvain objectives, spectral '
+         'proved in Lean, DESIGN Appendix A.2) closes the gap. modularity_louvain_und (hierarchy=False) is proved END TO END as well: the node-moving sweeps of a level are used modularly through the proved fragment contract modularity_louvain_und#level, and the outer loop over hierarchy levels (lists ci/q of symbolic length, np.unique relabelling, composition of label vectors, aggregation of the working matrix, formula of q, stopping test, returned pair) is proved with the invariant `working matrix = aggregate of the ARGUMENT under the current labels of the original nodes`, using the Lean-proved identity that aggregation composes (agg_compose); result: labels exactly 1..k, q = Q(argument, returned labels) unless no level was accepted (then q = -1 with singleton labels, which needs Q(singletons) <= -1 + 1e-10: impossible for gamma < 2, covered by the bounded tier). The signed routines modularity_finetune_und_sign, modularity_probtune_und_sign and modularity_louvain_und_sign (whole functions, all five qtypes at once) are proved the same way for the signed quality d0 Q+ - d1 Q-: labels 1..k, returned q = signed quality of the returned labels (finetune: the definition of the quality unfolded as a double sum; Louvain: from the aggregated positive/negative matrices), and d0, d1, s0, s1 are the factors of the requested type incl. the adjustment for an absent sign. community_louvain (default objective B=\'modularity\', default start or ANY given start partition, non-negative weights, directed or undirected) is proved end to end as well: construction and symmetrisation of the kernel, initial bookkeeping, first-iteration branch, composition of labels, aggregation, q = trace: the returned q is QrawB(kernel, labels)/s, which is the modularity of the returned labels (Lean: Q_from_symmetrised_kernel). All other detectors (modularity_louvain_dir = known finding, a user-supplied objective matrix for community_louvain (its other built-in objectives potts / negative_sym / negative_asym are proved like modularity: q = objective of the returned labels for the documented kernel, pinned cell by cell), hierarchy=True output, community_louvain objectives, spectral '
          'modularity_und/_dir and the given-partition branches) are bounded only: independent O(n^2) reference formulas on all graphs n<=4 (weights {0,1,2}), all start partitions, all visiting '
          'orders n<=4, gamma in {.8,1,1.3}, all qtypes.',
          PROOF_NOTE + ' Modularity lemmas (gain, q_from_aggregate, relabelling, node-to-module sum identities) are assumed in SMT and proved separately in Lean; nonlinear products kept uninterpreted.',
